@@ -6,7 +6,7 @@ import time
 from common import REPO, Rule, finish
 from hirtab import ANY, C, L, T, adt_variants, callees, candidates, lit_value, top_match
 from hirutil import callee as hir_callee, find, strip, walk
-from mirutil import Body, op_local, rvalue_reads
+from mirutil import Body, FlagGuard, op_local, rvalue_reads
 
 EXIT_SPEC = {"FalseOrNull": 1, "Io": 2, "Report": 3, "NoOutput": 4, "Parse": 5, "Jaq": 5}
 # short option -> Cli fields it must set
@@ -137,30 +137,24 @@ def run(facts, tier):
     if not ok2:
         t1.violate("usage", "a command-line usage error does not exit with status 2")
     # NoOutput / FalseOrNull only under exit_status
-    # (searched in every function of the driver crate, so that moving code out of real_main keeps the rule armed)
+    # (searched in every function of the driver crate and decided by control dependence on the MIR, so that moving the
+    # code out of real_main or writing the test as a match guard keeps the rule armed and quiet)
+    fg = FlagGuard(facts, "jaq", "jaq::cli::Cli", "exit_status", skip=lambda body: body["def"].startswith("jaq::funs::repl") or (body.get("root") or "").startswith("jaq::funs::repl"))
     n_ctor = 0
-    for rm in facts.hir("jaq"):
-        if rm.get("test"):
-            continue
-
-        def under_exit_status(node_sp, rm=rm):
-            for iff in find(rm["body"], lambda n: n.get("k") == "If"):
-                c = strip(iff["c"])
-                if c.get("k") == "Field" and c["name"] == "exit_status":
-                    inside = find(iff["t"], lambda n: n.get("sp") == node_sp)
-                    if inside:
-                        return True
-            return False
-        for n in find(rm["body"], lambda n: n.get("k") == "Path" and (n["path"].get("def") or "") in ("jaq::Error::NoOutput", "jaq::Error::FalseOrNull")):
-            if is_in_pattern(rm["body"], n):
-                continue
-            n_ctor += 1
-            ok = under_exit_status(n["sp"])
-            t1.examined(("exit_status-only", n["path"]["def"]), True, {"constructed": n["path"]["def"], "in": rm["def"], "only_under_exit_status": ok})
-            if not ok:
-                t1.violate(f"exit-status-only/{n['path']['def']}", f"`{n['path']['def']}` is produced without --exit-status (in {rm['def']})", where=n["sp"])
-    if n_ctor < 2:
-        t1.missing_anchor("constructions of Error::NoOutput / Error::FalseOrNull in the driver")
+    if not fg.ok:
+        t1.missing_anchor("field jaq::cli::Cli.exit_status")
+    else:
+        for d, b_ in sorted(fg.bodies.items()):
+            for i_, bb_ in enumerate(b_.bbs):
+                for s_ in bb_["st"]:
+                    if s_.get("k") == "A" and s_["r"].get("k") == "Agg" and (s_["r"].get("ak") or "") == "Adt:jaq::Error" and s_["r"].get("variant") in ("NoOutput", "FalseOrNull"):
+                        n_ctor += 1
+                        ok = fg.conditional(d, i_)
+                        t1.examined(("exit_status-only", s_["r"]["variant"]), True, {"constructed": s_["r"]["variant"], "in": d, "only_under_exit_status": ok})
+                        if not ok:
+                            t1.violate(f"exit-status-only/jaq::Error::{s_['r']['variant']}", f"`jaq::Error::{s_['r']['variant']}` is produced without --exit-status (in {d})", where=s_.get("sp"))
+        if n_ctor < 2:
+            t1.missing_anchor("constructions of Error::NoOutput / Error::FalseOrNull in the driver")
     merging = []
     nb = 0
     for crate, rmir in facts.all_mir():
